@@ -222,6 +222,17 @@ var mutBytes = []byte("+-.eE0123456789 nNaAsSiIfFtTyY_xX\x00\x80\xff")
 
 func (r *rng) mutate(s string) string {
 	b := []byte(s)
+	if r.coin(12) {
+		// a sign where the integer parsers would accept one: right after the point or the leading sign
+		sg := "+-"[r.intn(2)]
+		if i := strings.IndexByte(s, '.'); i >= 0 && r.coin(70) {
+			return s[:i+1] + string(sg) + s[i+1:]
+		}
+		if len(s) > 0 && (s[0] == '+' || s[0] == '-') {
+			return s[:1] + string(sg) + s[1:]
+		}
+		return "." + string(sg) + s
+	}
 	switch r.intn(4) {
 	case 0: // insert
 		i := r.intn(len(b) + 1)
